@@ -106,8 +106,8 @@ def oracle_cases(item, seed, extra_x=(), Ns=None):
             for (lo, up) in (([-0.5] * N, [0.5] * N), ([-2.0 + i for i in range(N)], [3.5 + 2 * i for i in range(N)])):
                 cases.append(dict(N=N, m=m, lower=lo, upper=up, xs=xs))
             if m in (2, 10):
-                cases.append(dict(N=N, m=m, lower=[0.0] * N, upper=[1.0 + i for i in range(N)], xs=xs[:200],
-                                  via_setbounds=True))
+                cases.append(dict(N=N, m=m, lower=[-0.5 + 0.125 * i for i in range(N)], upper=[0.75 + i for i in range(N)],
+                                  xs=xs[:200], via_setbounds=True))
     return cases
 
 
